@@ -151,6 +151,7 @@ pub fn sink_scan(ctx: &mut Ctx, o: &Map<String, J>) -> Result<J, OpErr> {
         }
     }
     let mut n_plans = 0usize;
+    let mut continuations: Vec<J> = Vec::new();
     let mut n_err_surfaced = 0usize;
     let mut n_all_ok_same = 0usize;
     let mut by_plan: BTreeMap<String, usize> = BTreeMap::new();
@@ -165,6 +166,25 @@ pub fn sink_scan(ctx: &mut Ctx, o: &Map<String, J>) -> Result<J, OpErr> {
         }
         if !v.all_ok {
             n_err_surfaced += 1;
+            // a transient fault of a container history: an operation failed, the sink works again, the history goes on.
+            // Recorded for the offline oracle (clean failure at a header/block boundary + later Ok => nothing may be missing)
+            if kind == "writer_history" && name.starts_with("fail-write-") && name != "fail-write-sticky" {
+                if let Ok(Ok(j)) = &r {
+                    let steps = j["steps"].as_array().cloned().unwrap_or_default();
+                    let first_fail = steps.iter().position(|s| s["r"].get("ok").is_none());
+                    let n_failed = steps.iter().filter(|s| s["r"].get("ok").is_none()).count();
+                    let failed_idx: Vec<usize> = steps.iter().enumerate().filter(|(_, s)| s["r"].get("ok").is_none()).map(|(i, _)| i).collect();
+                    if let Some(ff) = first_fail {
+                        if ff + 1 < steps.len() && steps.last().map(|s| s["r"].get("ok").is_some()).unwrap_or(false) {
+                            let fin = j["bytes"].as_str().unwrap_or("").to_string();
+                            let same = variants.iter().any(|b| b.len() == 1 && b[0] == fin);
+                            continuations.push(json!({"plan": plan, "kind": name, "first_failed_step": ff, "failed_steps": n_failed, "failed_step_indices": failed_idx,
+                                "sink_len_at_failure": steps[ff]["sink"], "final_equals_a_baseline": same,
+                                "final_len": fin.len() / 2, "final": if same { J::Null } else { json!(fin) }}));
+                        }
+                    }
+                }
+            }
             continue;
         }
         if !variants.contains(&v.delivered) {
@@ -205,5 +225,6 @@ pub fn sink_scan(ctx: &mut Ctx, o: &Map<String, J>) -> Result<J, OpErr> {
     }
     let violations: Vec<J> = viol.into_iter().map(|(k, (n, d))| json!({"sig": k, "count": n, "first": d})).collect();
     Ok(json!({"plans": n_plans, "by_plan": by_plan, "errors_surfaced": n_err_surfaced, "all_ok_and_identical": n_all_ok_same,
+        "continuations": continuations, "baseline": if kind == "writer_history" { json!(base.delivered.first()) } else { J::Null },
         "baseline_sink_calls": [base.n_write, base.n_flush], "baseline_bytes": base.delivered.iter().map(|d| d.len() / 2).sum::<usize>(), "violations": violations}))
 }
